@@ -219,12 +219,12 @@ class MTVRPEnv(RL4COEnvBase):
         )
         arrival_time = td["current_time"] + (d_ij / td["speed"])
         # can reach in time -> only need to *start* in time
-        can_reach_customer = arrival_time < late_tw
+        can_reach_customer = arrival_time <= late_tw
         # we must ensure that we can return to depot in time *if* route is closed
         # i.e. start time + service time + time back to depot < late_tw
         can_reach_depot = (
             torch.max(arrival_time, early_tw) + td["service_time"] + (d_j0 / td["speed"])
-        ) * ~td["open_route"] < late_tw[..., 0:1]
+        ) * ~td["open_route"] <= late_tw[..., 0:1]
 
         # Distance limit (L): do not add distance to depot if open route (O)
         exceeds_dist_limit = (
